@@ -175,6 +175,43 @@ fn enum_many(t: Tier, shard: usize, n: usize, f: &mut dyn FnMut(Bytes) -> bool) 
     }
 }
 
+// ---- 1c. arrangements of a few special entries: every sequence of up to 5 records drawn from {A, OPT, OPT with an
+// option, CNAME, empty-RDATA record} in each record section, with exact and with overstated counts
+
+fn enum_arrangements(_t: Tier, shard: usize, n: usize, f: &mut dyn FnMut(Bytes) -> bool) {
+    let kinds: [&[u8]; 5] = [
+        &[0, 0, 1, 0, 1, 0, 0, 0, 5, 0, 4, 10, 0, 0, 1],
+        &[0, 0, 41, 0x04, 0xd0, 0, 0, 0, 0, 0, 0],
+        &[0, 0, 41, 0x02, 0x00, 0x01, 0x02, 0x80, 0, 0, 6, 0, 10, 0, 2, 0xab, 0xcd],
+        &[0, 0, 5, 0, 1, 0, 0, 0, 9, 0, 3, 1, b'x', 0],
+        &[0, 0, 99, 0x80, 1, 0, 0, 0, 0, 0, 0],
+    ];
+    let mut idx = 0usize;
+    for len in 0..=5usize {
+        for code in 0..5usize.pow(len as u32) {
+            for section in 1..4usize {
+                for extra in [0u16, 1, 0xff00] {
+                    idx += 1;
+                    if !mine(idx, shard, n) {
+                        continue;
+                    }
+                    let mut m = vec![0x12, 0x34, 0x80, 0x00, 0, 0, 0, 0, 0, 0, 0, 0];
+                    let mut x = code;
+                    for _ in 0..len {
+                        m.extend_from_slice(kinds[x % 5]);
+                        x /= 5;
+                    }
+                    let count = (len as u16).wrapping_add(extra);
+                    m[4 + 2 * section..6 + 2 * section].copy_from_slice(&count.to_be_bytes());
+                    if !f(Bytes(m)) {
+                        return;
+                    }
+                }
+            }
+        }
+    }
+}
+
 // ---- 2. short buffers
 
 fn enum_short(_t: Tier, shard: usize, n: usize, f: &mut dyn FnMut(Bytes) -> bool) {
@@ -491,7 +528,7 @@ fn check_mutated(input: &Mutated, case: &mut Case) -> Result<(), Fail> {
 pub fn def() -> CheckDef {
     CheckDef {
         id: "C01",
-        rule: "byte strings fed to Packet::parse and to the 8 header-peek functions under panic capture, a per-thread heap meter (bound 64 KiB + 1024*len; hard cap 1 GiB) and a thread-CPU-time watchdog (5 s, confirmed at 20 s): (1) every truncation and every single-byte perturbation {-1,+1,0,0xff,^0x80,|0xc0,&0x3f} plus section-count edits of reference encodings of all 40 types/unknown/NULL/empty in single and multi-record, plain and compressed form, OPT at each additional position, every RDLENGTH value from 0 to natural+2; (1b) for each type (typed, empty, unknown) messages holding 400 / 2500 (5000 thorough) records of that one type in each section; (2) all buffers of length 0..=4 over 7 symbols and lengths 5..=13; (3) 3 fixed headers, and one whose id octets are label lengths spanning the whole message, x all bodies of length <= 6 (7 thorough) over a 12-symbol alphabet; (4) generated pointer graphs (chains, self/forward/absolute pointers, up to 64 KiB); (5) reference encodings with random compression and 0..8 random mutations. Non-trivial = at least a 12-byte header with Z clear (the parser reaches the sections); distinct by hash of the input",
+        rule: "byte strings fed to Packet::parse and to the 8 header-peek functions under panic capture, a per-thread heap meter (bound 64 KiB + 1024*len; hard cap 1 GiB) and a thread-CPU-time watchdog (5 s, confirmed at 20 s): (1) every truncation and every single-byte perturbation {-1,+1,0,0xff,^0x80,|0xc0,&0x3f} plus section-count edits of reference encodings of all 40 types/unknown/NULL/empty in single and multi-record, plain and compressed form, OPT at each additional position, every RDLENGTH value from 0 to natural+2; (1b) for each type (typed, empty, unknown) messages holding 400 / 2500 (5000 thorough) records of that one type in each section; (1c) every sequence of up to 5 records drawn from {A, OPT, OPT with an option, CNAME, empty-RDATA record} in each record section with exact and overstated counts; (2) all buffers of length 0..=4 over 7 symbols and lengths 5..=13; (3) 3 fixed headers, and one whose id octets are label lengths spanning the whole message, x all bodies of length <= 6 (7 thorough) over a 12-symbol alphabet; (4) generated pointer graphs (chains, self/forward/absolute pointers, up to 64 KiB); (5) reference encodings with random compression and 0..8 random mutations. Non-trivial = at least a 12-byte header with Z clear (the parser reaches the sections); distinct by hash of the input",
         assumptions: vec![
             "time is asserted only coarsely (CPU watchdog): the decoder's cost is bounded by the backwards-only pointer rule and the 255-byte name budget, measured maxima are reported under coverage.maxima",
             "heap bound calibrated on the densest legitimate input (a 2-byte pointer expanding to 127 labels: ~515 heap bytes per input byte)",
@@ -500,6 +537,7 @@ pub fn def() -> CheckDef {
             Box::new(ReplayOnly { name: "bytes", check: check_bytes }),
             Box::new(EnumSection { name: "cut-perturb", rule: "truncations and perturbations of reference encodings", enumerate: enum_cut_perturb, check: check_bytes, exhaustive: true }),
             Box::new(EnumSection { name: "many-records", rule: "hundreds to thousands of records of one type", enumerate: enum_many, check: check_bytes, exhaustive: true }),
+            Box::new(EnumSection { name: "arrangements", rule: "all sequences of up to 5 special records per section", enumerate: enum_arrangements, check: check_bytes, exhaustive: true }),
             Box::new(EnumSection { name: "short", rule: "all short buffers", enumerate: enum_short, check: check_bytes, exhaustive: true }),
             Box::new(EnumSection { name: "bodies", rule: "bounded-exhaustive bodies", enumerate: enum_bodies, check: check_bytes, exhaustive: true }),
             Box::new(PropSection { name: "graphs", rule: "pointer graphs", strategy: graph_strategy, cases: (100_000, 1_000_000), check: check_graph }),
